@@ -95,32 +95,37 @@ def r05_2(ctx):
         ok = len(live) == 1 and Norm(None).key(live[0].value) == "self.eval_at_control(%s,%s,%s)" % (f.params[2], f.params[3], node)
         ctx.check(ok, "%s evaluates at node %s" % (name, node), detail="boundary term evaluated at another node", expected="self.eval_at_control(stage, expr, %s)" % node,
                   found="; ".join(ast.unparse(r.value) for r in live), fi=f, sample={"handler": name})
+    # the two sum handlers are *run* on a small scenario (N = 3, eval_at_control(stage, expr, k) -> token e(k)): the value returned in
+    # phase 2 must be 0 + e(0) + e(1) + e(2) (+ e(-1)), whatever loop / reduce / sum form computes it
+    from ..sim import Sim, fresh_obj
+    from ..layout import Sym, LayoutUnknown
     for name, want_kind in (("fill_placeholders_sum_control", "N"), ("fill_placeholders_sum_control_plus", "N+final")):
         f = prog.own_method("SamplingMethod", name)
-        sc = ctx.scope(f)
-        n = ctx.norm(f)
-        loops = [l for l in f.node.body if isinstance(l, ast.For)]
-        ok = len(loops) == 1
-        found = ""
-        if ok:
-            l = loops[0]
-            kind, _ = classify_iter(l.iter, n)
-            found = "loop over %s" % ast.unparse(l.iter)
-            kv = l.target.id if isinstance(l.target, ast.Name) else None
-            ok = kind == want_kind and len(l.body) == 1 and isinstance(l.body[0], ast.Assign)
-            if ok:
-                acc = l.body[0]
-                r = acc.targets[0].id if isinstance(acc.targets[0], ast.Name) else None
-                p = Norm(None).poly(acc.value)
-                term = "self.eval_at_control(%s,%s,%s)" % (f.params[2], f.params[3], kv)
-                ok = p == Poly.atom(r) + Poly.atom(term)
-                found += ": " + ast.unparse(acc)
-                inits = [d for d in sc.defs.get(r, []) if d.kind == "assign" and not sc.enclosing_loops(d.stmt)]
-                ok = ok and len(inits) == 1 and ast.unparse(inits[0].value) == "0"
-                rets = [x for x, ph1 in phase2_returns(ctx, f) if not ph1 and x.value is not None]
-                ok = ok and len(rets) == 1 and ast.unparse(rets[0].value) == r and sc.order[rets[0]] > sc.order[l]
-        ctx.check(ok, "%s sums the node values" % name, detail="sum over the wrong node set", expected="r=0; for k in %s: r = r + eval_at_control(stage, expr, k); return r" % ("range(N)" if want_kind == "N" else "range(N)+[-1]"),
-                  found=found, fi=f, sample={"handler": name, "nodes": want_kind})
+        want_nodes = [0, 1, 2] + ([-1] if want_kind == "N+final" else [])
+        me = fresh_obj("self", N=3)
+        hooks = {".eval_at_control": lambda s_, r, a, k, n_: Sym("e", a[2] if len(a) > 2 else k.get("k"))}
+        sim = Sim(prog, hooks=hooks, truth={"phase == 1": False, "phase == 2": True, "phase != 2": False, "phase != 1": True})
+        sim.self_class = "SamplingMethod"
+        try:
+            args = {f.params[1]: 2, f.params[2]: Sym("stage"), f.params[3]: Sym("expr")}
+            out = sim.call(f, [me] + [args[p_] for p_ in f.params[1:4]] + [Sym("extra%d" % q) for q in range(len(f.params) - 4)], {})
+        except LayoutUnknown as e:
+            raise AnalysisError("%s could not be simulated: %s" % (name, e))
+        terms, zero = [], []
+
+        def flat(v):
+            if isinstance(v, Sym) and v.op == "binop" and v.args[0] == "Add":
+                flat(v.args[1]); flat(v.args[2])
+            elif isinstance(v, Sym) and v.op == "e":
+                terms.append(v.args[0])
+            elif v == 0 and not isinstance(v, (Sym, bool)):
+                zero.append(v)
+            else:
+                terms.append("<%s>" % (v,))
+        flat(out)
+        ok = terms == want_nodes
+        ctx.check(ok, "%s sums the node values" % name, detail="sum over the wrong node set", expected="0 + sum of eval_at_control(stage, expr, k) for k in %s" % want_nodes,
+                  found="terms at nodes %s" % terms, fi=f, sample={"handler": name, "nodes": want_kind})
     f = prog.own_method("SamplingMethod", "fill_placeholders_integral_control")
     n = ctx.norm(f)
     live = [r for r, ph1 in phase2_returns(ctx, f) if not ph1 and r.value is not None]
